@@ -432,6 +432,12 @@ class Ref:
             except yatiml.SeasoningError as e:
                 self.rule('savorize-raised-seasoning-error')
                 raise _Fail('savorizer of %s raised SeasoningError' % name)
+            except yatiml.RecognitionError:
+                raise _Fail('savorizer of %s raised RecognitionError' % name)
+            except Exception as e:
+                # a helper of the menu failed in a way the protocol does not
+                # provide for (C08/C15 judge that); no reference outcome
+                raise _Unspec('menu savorizer raised %s' % type(e).__name__)
             node = cnode.yaml_node
         return node
 
